@@ -482,7 +482,7 @@ def r6b_attribute_reads(ctx, prog, rule_id='C06.R6b'):
     """The generic twin of R6: code that fetches an attribute of *any* type with OSObject::getAttribute(type) (search, C_GetAttributeValue, C_CopyObject, the wrap-template
     comparison) gets ciphertext when the attribute is a byte string of a private object.  Its bytes are read plain only where the object is known public, the attribute known
     not to be a byte string, or empty; they are handed to Token::decrypt only where the object is known private."""
-    r = ctx.rule(rule_id, 'the bytes of an attribute fetched by type are decrypted exactly when its object is private', floor=8, engine='E2 (diamond over the privacy flag, the attribute kind and emptiness)')
+    r = ctx.rule(rule_id, 'the bytes of an attribute fetched by type are decrypted exactly when its object is private', floor=6, engine='E2 (diamond over the privacy flag, the attribute kind and emptiness)')
     consts = {macro(prog, n): n for n in NOT_BYTE_STRINGS}
     for f in sorted(prog.functions.values(), key=lambda f: (f['file'], f['line'])):
         if not f['file'].endswith(('SoftHSM.cpp', 'P11Attributes.cpp', 'P11Objects.cpp')) or unanalysable(f):
